@@ -13,6 +13,10 @@ use std::collections::{BTreeMap, BTreeSet};
 use std::rc::Rc;
 use std::sync::Mutex;
 
+/// the label of instantiation variant 1: surrounding white space, and longer than any limit a real
+/// chain applies (the simulator has none, and records the label as supplied)
+const LONG_LABEL: &str = " m\téééééééééééééééééééééééééééééééééééééééééééééééééééééééééééééééééééééé";
+
 type RApp = App<BankKeeper, MockApi, SnapStorage>;
 
 #[derive(Clone, Debug, PartialEq, Eq, Hash)]
@@ -21,7 +25,7 @@ pub enum ROp {
     StoreCreator(u8),
     StoreId(u64),
     Dup(u64),
-    /// classic instantiate: code, creator index, variant (0: label "l" / no admin, 1: label " m<TAB>" (surrounding whitespace) / admin u), init ok
+    /// classic instantiate: code, creator index, variant (0: label "l" / no admin, 1: label " m<TAB>" + 70 x "é" (surrounding whitespace, 143 bytes) / admin u), init ok
     Inst { code: u64, creator: u8, variant: u8, ok: bool },
     Inst2 { code: u64, creator: u8, salt: u8, ok: bool },
     /// instantiate as a sub-message of a transaction on the first contract that fails afterwards
@@ -241,7 +245,7 @@ fn step(ctx: &Ctx, st: &RState, op: &ROp, nm: &Names, shared: &Shared) -> StepOu
         ROp::Dup(id) => app.duplicate_code(*id).map_err(|e| format!("{:#}", e)),
         ROp::Inst { code, creator, variant, ok } => {
             set_script(init_program(*ok));
-            let (label, admin) = if *variant == 0 { ("l", None) } else { (" m\t", Some(nm.creators[0].clone())) };
+            let (label, admin) = if *variant == 0 { ("l", None) } else { (LONG_LABEL, Some(nm.creators[0].clone())) };
             app.instantiate_contract(*code, Addr::unchecked(&nm.creators[*creator as usize]), &NodeMsg { n: 0 }, &[], label, admin)
                 .map(|a| {
                     new_addr = Some(a.into_string());
@@ -347,7 +351,7 @@ fn step(ctx: &Ctx, st: &RState, op: &ROp, nm: &Names, shared: &Shared) -> StepOu
                 ctx.violation("c11:address-reused", case("instantiation returned the address of an existing contract", json!({"address": addr})));
             }
             let (code, creator, admin, label, salted) = match op {
-                ROp::Inst { code, creator, variant, .. } => (*code, nm.creators[*creator as usize].clone(), if *variant == 0 { None } else { Some(nm.creators[0].clone()) }, if *variant == 0 { "l" } else { " m\t" }, None),
+                ROp::Inst { code, creator, variant, .. } => (*code, nm.creators[*creator as usize].clone(), if *variant == 0 { None } else { Some(nm.creators[0].clone()) }, if *variant == 0 { "l" } else { LONG_LABEL }, None),
                 ROp::Inst2 { code, creator, salt, .. } => (*code, nm.creators[*creator as usize].clone(), if *salt == 1 { Some(nm.creators[1].clone()) } else { None }, "s", Some((model.codes[code].class, nm.creators[*creator as usize].clone(), *salt))),
                 _ => unreachable!(),
             };
